@@ -1,12 +1,578 @@
-//! C09: not yet implemented
+//! C09: character presets (`src/chardat.rs`) and gear-set files (`src/gearsets.rs`, `src/dat.rs`)
+//! keep the documented layout.
+//!
+//! Abstract cases (grammar shared with `lean/PhysisModel/Driver/C09.lean`):
+//!   char    <version> <27 appearance bytes, documented order> <timestamp> <comment>
+//!   charbad the same with an undocumented race / gender / tribe code (must be rejected)
+//!   gear    <current> <unk1> <unk3> <sets>
+//! The files are produced by the Lean `Spec/` encoders (the `<input>` column of the driver's
+//! answer: `<op> <file hex>`); nothing here writes the formats.  For each case the real code
+//! (F) parses the file and its public fields are dumped by *name*, (W) writes the parsed value
+//! back, (D) writes a value built directly from the case through the public API.
 #![allow(unused)]
 use crate::util::*;
+use physis::chardat::{CharacterData, CustomizeData};
+use physis::gearsets::{GearSet, GearSets, GearSlot, GearSlotType};
+use physis::race::{Gender, Race, Tribe};
+use std::collections::HashMap;
 use std::io::Write;
 
-pub fn generate(thorough: bool, seed: u64, out: &mut dyn Write) {}
+// ------------------------------------------------------------------------------------------
+// generator
+// ------------------------------------------------------------------------------------------
 
-pub fn run(case: &str, input: &str) -> String {
-    "unimplemented".to_string()
+const MULTI: [&str; 6] = ["é", "ß", "あ", "設定", "😀", "Ω"];
+
+fn utf8_text(rng: &mut Rng, max_bytes: usize) -> Vec<u8> {
+    let target = rng.range(0, max_bytes as u64) as usize;
+    exact_text(rng, target, max_bytes)
 }
 
-pub fn dump(out: &mut dyn Write) {}
+/// NUL-free valid UTF-8 of (at most `max`, aiming at exactly `target`) bytes
+fn exact_text(rng: &mut Rng, target: usize, max: usize) -> Vec<u8> {
+    let mut v: Vec<u8> = Vec::new();
+    while v.len() < target {
+        let left = target.min(max) - v.len();
+        let piece: Vec<u8> = match rng.below(8) {
+            0 => rng.pick(&MULTI).as_bytes().to_vec(),
+            1 => vec![b' '],
+            2 => vec![rng.range(1, 0x1f) as u8], // control characters other than NUL are text too
+            _ => vec![rng.range(0x21, 0x7e) as u8],
+        };
+        if piece.len() <= left {
+            v.extend(piece);
+        } else {
+            v.push(b'x');
+        }
+    }
+    v
+}
+
+const RACES: u8 = 8;
+const TRIBES: u8 = 16;
+
+fn appearance(rng: &mut Rng) -> [u8; 27] {
+    let mut a = [0u8; 27];
+    for b in a.iter_mut() {
+        *b = match rng.below(6) {
+            0 => 0,
+            1 => 255,
+            2 => 128,
+            _ => rng.below(256) as u8,
+        };
+    }
+    a[0] = rng.range(1, RACES as u64) as u8;
+    a[1] = rng.below(2) as u8;
+    a[4] = rng.range(1, TRIBES as u64) as u8;
+    a[7] = rng.below(2) as u8;
+    a
+}
+
+fn char_line(op: &str, version: u32, a: &[u8; 27], ts: u32, comment: &[u8]) -> String {
+    format!("{} {} {} {} {}", op, version, hex(a), ts, hex(comment))
+}
+
+struct Slot {
+    j: usize,
+    id: u32,
+    glam: Option<u32>,
+    unk: [u32; 5],
+}
+struct Set {
+    pos: usize,
+    index: u8,
+    name: Vec<u8>,
+    unk: u64,
+    fw: Option<u32>,
+    slots: Vec<Slot>,
+}
+
+fn opt(o: Option<u32>) -> String {
+    o.map(|v| v.to_string()).unwrap_or_else(|| "-".into())
+}
+
+fn gear_line(cur: u8, u1: u8, u3: u16, sets: &[Set]) -> String {
+    let s = if sets.is_empty() {
+        ".".to_string()
+    } else {
+        sets.iter()
+            .map(|s| {
+                let slots = if s.slots.is_empty() {
+                    ".".to_string()
+                } else {
+                    s.slots
+                        .iter()
+                        .map(|x| format!("{}/{}/{}/{}/{}/{}/{}/{}", x.j, x.id, opt(x.glam), x.unk[0], x.unk[1], x.unk[2], x.unk[3], x.unk[4]))
+                        .collect::<Vec<_>>()
+                        .join(",")
+                };
+                format!("{}:{}:{}:{}:{}:{}", s.pos, s.index, hex(&s.name), s.unk, opt(s.fw), slots)
+            })
+            .collect::<Vec<_>>()
+            .join(";")
+    };
+    format!("gear {} {} {} {}", cur, u1, u3, s)
+}
+
+const MARKER: u32 = 1_000_000;
+
+/// an item id; `clean` = shares no bit with the marker (and is not 0)
+fn item_id(rng: &mut Rng, clean: bool) -> u32 {
+    loop {
+        let v = match rng.below(8) {
+            0 => rng.range(1, 50_000) as u32,
+            1 => 0x8000_0000 | rng.below(1 << 20) as u32,
+            2 => 0xFFFF_FFFF,
+            3 => 1 << rng.below(32),
+            _ => rng.next() as u32,
+        };
+        let v = if clean { v & !MARKER } else { v };
+        if v != 0 && (clean || v & MARKER != 0) {
+            return v;
+        }
+    }
+}
+
+fn nonzero_u32(rng: &mut Rng) -> u32 {
+    loop {
+        let v = rng.u32_edge();
+        if v != 0 {
+            return v;
+        }
+    }
+}
+
+fn random_sets(rng: &mut Rng, nsets: usize, hidden: bool, overlap: bool) -> Vec<Set> {
+    let mut positions: Vec<usize> = (0..100).collect();
+    // partial shuffle
+    for i in 0..nsets {
+        let j = i + rng.below((100 - i) as u64) as usize;
+        positions.swap(i, j);
+    }
+    let mut chosen: Vec<usize> = positions[..nsets].to_vec();
+    chosen.sort();
+    let mut sets = Vec::new();
+    for pos in chosen {
+        let name_len = match rng.below(6) {
+            0 => 1,
+            1 => 46,
+            2 => 45,
+            _ => rng.range(1, 46) as usize,
+        };
+        let name = exact_text(rng, name_len, 46);
+        let nslots = match rng.below(5) {
+            0 => 0,
+            1 => 14,
+            _ => rng.range(1, 13) as usize,
+        };
+        let mut js: Vec<usize> = (0..14).collect();
+        for i in 0..nslots {
+            let j = i + rng.below((14 - i) as u64) as usize;
+            js.swap(i, j);
+        }
+        let mut sel = js[..nslots].to_vec();
+        sel.sort();
+        let slots = sel
+            .into_iter()
+            .map(|j| Slot {
+                j,
+                id: {
+                    let clean = !(overlap && rng.chance(1, 3));
+                    item_id(rng, clean)
+                },
+                glam: if rng.chance(1, 2) { Some(nonzero_u32(rng)) } else { None },
+                unk: if hidden && rng.chance(1, 2) { [rng.u32_edge(), rng.u32_edge(), rng.u32_edge(), rng.u32_edge(), rng.u32_edge()] } else { [0; 5] },
+            })
+            .collect();
+        sets.push(Set {
+            pos,
+            index: if rng.chance(3, 4) { pos as u8 } else { rng.below(256) as u8 },
+            name,
+            unk: if hidden && rng.chance(1, 2) { rng.next() } else { 0 },
+            fw: if rng.chance(1, 3) { Some(nonzero_u32(rng)) } else { None },
+            slots,
+        });
+    }
+    sets
+}
+
+pub fn generate(thorough: bool, seed: u64, out: &mut dyn Write) {
+    let mut rng = Rng::new(seed, "C09");
+    let base: [u8; 27] = [1, 0, 1, 50, 1, 5, 1, 1, 2, 37, 53, 0, 2, 2, 0, 37, 0, 0, 0, 0, 43, 50, 0, 0, 0, 36, 1];
+
+    // ---- every race x gender x tribe code
+    for r in 1..=RACES {
+        for g in 0..2u8 {
+            for t in 1..=TRIBES {
+                let mut a = appearance(&mut rng);
+                a[0] = r;
+                a[1] = g;
+                a[4] = t;
+                writeln!(out, "{}", char_line("char", rng.u32_edge(), &a, rng.u32_edge(), &utf8_text(&mut rng, 30))).unwrap();
+            }
+        }
+    }
+    // ---- every field swept over all 256 values, the others random; undocumented codes must be rejected
+    for field in 0..27usize {
+        for v in 0..=255u8 {
+            let mut a = if v % 2 == 0 { base } else { appearance(&mut rng) };
+            a[field] = v;
+            let bad = (field == 0 && !(1..=RACES).contains(&v)) || (field == 1 && v > 1) || (field == 4 && !(1..=TRIBES).contains(&v));
+            if field == 7 && v > 1 {
+                continue; // the highlights switch is a bool in the value space
+            }
+            let c = utf8_text(&mut rng, 20);
+            writeln!(out, "{}", char_line(if bad { "charbad" } else { "char" }, 7, &a, 1_700_000_000, &c)).unwrap();
+        }
+    }
+    // ---- comments of every length 0..=163
+    for len in 0..=163usize {
+        let c = exact_text(&mut rng, len, 163);
+        writeln!(out, "{}", char_line("char", 1, &appearance(&mut rng), rng.u32_edge(), &c)).unwrap();
+    }
+    // ---- random presets
+    let n = if thorough { 200_000 } else { 2_000 };
+    for _ in 0..n {
+        let c = if rng.chance(1, 4) {
+            let target = 163 - rng.below(3) as usize;
+            exact_text(&mut rng, target, 163)
+        } else {
+            utf8_text(&mut rng, 163)
+        };
+        writeln!(out, "{}", char_line("char", rng.u32_edge(), &appearance(&mut rng), rng.u32_edge(), &c)).unwrap();
+    }
+
+    // ---- gear sets
+    writeln!(out, "gear 0 0 0 .").unwrap();
+    // each of the 14 slots alone, in set 0 and in set 99
+    for j in 0..14usize {
+        for pos in [0usize, 99] {
+            let s = Set { pos, index: pos as u8, name: b"Set".to_vec(), unk: 0, fw: None, slots: vec![Slot { j, id: 4096 + j as u32, glam: Some(7 + j as u32), unk: [0; 5] }] };
+            writeln!(out, "{}", gear_line(pos as u8, 0, 0, &[s])).unwrap();
+        }
+    }
+    // every set position alone
+    for pos in 0..100usize {
+        if !thorough && pos % 7 != 0 && pos != 99 {
+            continue;
+        }
+        let s = random_sets(&mut rng, 1, false, false).pop().map(|mut s| {
+            s.pos = pos;
+            s
+        });
+        writeln!(out, "{}", gear_line(rng.below(100) as u8, 0, 0, &[s.unwrap()])).unwrap();
+    }
+    // all 100 sets, all 14 slots
+    {
+        let mut sets = random_sets(&mut rng, 100, true, false);
+        writeln!(out, "{}", gear_line(99, 255, 65535, &sets)).unwrap();
+    }
+    let n = if thorough { 6_000 } else { 220 };
+    for i in 0..n {
+        let nsets = match rng.below(6) {
+            0 => 1,
+            1 => 100,
+            2 => rng.range(90, 100),
+            _ => rng.range(1, 30),
+        } as usize;
+        let hidden = i % 2 == 1;
+        let overlap = i % 10 == 9; // the class of finding gearsets.id-overlaps-marker
+        let sets = random_sets(&mut rng, nsets, hidden, overlap);
+        let (u1, u3) = if hidden { (rng.below(256) as u8, rng.below(65536) as u16) } else { (0, 0) };
+        writeln!(out, "{}", gear_line(rng.below(256) as u8, u1, u3, &sets)).unwrap();
+    }
+}
+
+// ------------------------------------------------------------------------------------------
+// run: the real code
+// ------------------------------------------------------------------------------------------
+
+fn dump_char(d: &CharacterData) -> String {
+    let c = &d.customize;
+    // by field *name*, listed in the documented order of the appearance block
+    let a: [u8; 27] = [
+        c.race as u8,
+        c.gender.clone() as u8,
+        c.age,
+        c.height,
+        c.tribe as u8,
+        c.face,
+        c.hair,
+        c.enable_highlights as u8,
+        c.skin_tone,
+        c.right_eye_color,
+        c.hair_tone,
+        c.highlights,
+        c.facial_features,
+        c.facial_feature_color,
+        c.eyebrows,
+        c.left_eye_color,
+        c.eyes,
+        c.nose,
+        c.jaw,
+        c.mouth,
+        c.lips_tone_fur_pattern,
+        c.race_feature_size,
+        c.race_feature_type,
+        c.bust,
+        c.face_paint,
+        c.face_paint_color,
+        c.voice,
+    ];
+    format!("{};{};{};{}", d.version, hex(&a), d.timestamp, hex(d.comment.as_bytes()))
+}
+
+fn build_char(version: u32, a: &[u8], ts: u32, comment: String) -> Option<CharacterData> {
+    Some(CharacterData {
+        version,
+        customize: CustomizeData {
+            race: Race::try_from(a[0]).ok()?,
+            gender: Gender::try_from(a[1]).ok()?,
+            age: a[2],
+            height: a[3],
+            tribe: Tribe::try_from(a[4]).ok()?,
+            face: a[5],
+            hair: a[6],
+            enable_highlights: a[7] == 1,
+            skin_tone: a[8],
+            right_eye_color: a[9],
+            hair_tone: a[10],
+            highlights: a[11],
+            facial_features: a[12],
+            facial_feature_color: a[13],
+            eyebrows: a[14],
+            left_eye_color: a[15],
+            eyes: a[16],
+            nose: a[17],
+            jaw: a[18],
+            mouth: a[19],
+            lips_tone_fur_pattern: a[20],
+            race_feature_size: a[21],
+            race_feature_type: a[22],
+            bust: a[23],
+            face_paint: a[24],
+            face_paint_color: a[25],
+            voice: a[26],
+        },
+        timestamp: ts,
+        comment,
+    })
+}
+
+fn same_or(file: &[u8], w: Option<Vec<u8>>) -> String {
+    match w {
+        None => "write-none".into(),
+        Some(w) if w == file => "same".into(),
+        Some(w) => hex(&w),
+    }
+}
+
+fn run_char(file: &[u8], cf: &[&str]) -> String {
+    let Some(d) = CharacterData::from_existing(file) else { return "none".into() };
+    let f = dump_char(&d);
+    let w = same_or(file, d.write_to_buffer());
+    // direct build from the abstract case
+    let built = (|| {
+        let a = unhex(cf[2])?;
+        if a.len() != 27 {
+            return None;
+        }
+        build_char(cf[1].parse().ok()?, &a, cf[3].parse().ok()?, String::from_utf8(unhex(cf[4])?).ok()?)
+    })();
+    let dd = match built {
+        Some(b) => same_or(file, b.write_to_buffer()),
+        None => "unbuildable".into(),
+    };
+    format!("F[{}]|W[{}]|D[{}]", f, w, dd)
+}
+
+/// documented slot order: number -> variant, by name
+fn slot_variant(j: usize) -> Option<GearSlotType> {
+    Some(match j {
+        0 => GearSlotType::MainHand,
+        1 => GearSlotType::SecondaryHand,
+        2 => GearSlotType::Head,
+        3 => GearSlotType::Body,
+        4 => GearSlotType::Hands,
+        5 => GearSlotType::Waist,
+        6 => GearSlotType::Legs,
+        7 => GearSlotType::Feet,
+        8 => GearSlotType::Bracelets,
+        9 => GearSlotType::Necklace,
+        10 => GearSlotType::Earrings,
+        11 => GearSlotType::Ring1,
+        12 => GearSlotType::Ring2,
+        13 => GearSlotType::Soul,
+        _ => return None,
+    })
+}
+
+const SLOT_NAMES: [&str; 14] =
+    ["MainHand", "SecondaryHand", "Head", "Body", "Hands", "Waist", "Legs", "Feet", "Bracelets", "Necklace", "Earrings", "Ring1", "Ring2", "Soul"];
+
+fn dump_gear(g: &GearSets) -> String {
+    let mut sets = Vec::new();
+    for (i, s) in g.gearsets.iter().enumerate() {
+        if let Some(s) = s {
+            // slots by the Debug name of their key, in documented order; unknown names last
+            let mut slots: Vec<(usize, String)> = s
+                .slots
+                .iter()
+                .map(|(k, v)| {
+                    let name = format!("{:?}", k);
+                    let ord = SLOT_NAMES.iter().position(|n| *n == name).unwrap_or(99);
+                    (ord, format!("{}/{}/{}", name, v.id, opt(v.glamour_id)))
+                })
+                .collect();
+            slots.sort();
+            let slots = if slots.is_empty() { ".".to_string() } else { slots.into_iter().map(|x| x.1).collect::<Vec<_>>().join(",") };
+            sets.push(format!("{}:{}:{}:{}:{}", i, s.index, hex(s.name.as_bytes()), opt(s.facewear), slots));
+        }
+    }
+    format!("{}|{}|{}", g.current_gearset, g.gearsets.len(), if sets.is_empty() { ".".to_string() } else { sets.join(";") })
+}
+
+fn diff_or_same(file: &[u8], w: Option<Vec<u8>>) -> String {
+    match w {
+        None => "write-none".into(),
+        Some(w) if w == file => "same".into(),
+        Some(w) => format!("diff:{}", w.len()),
+    }
+}
+
+/// Build `gearsets` from the abstract case through the public API; None when the case carries
+/// hidden (private) per-set / per-slot fields.
+fn build_sets(sets: &str) -> Option<Option<Vec<Option<GearSet>>>> {
+    let mut v: Vec<Option<GearSet>> = vec![None; 100];
+    if sets == "." {
+        return Some(Some(v));
+    }
+    for s in sets.split(';') {
+        let f: Vec<&str> = s.split(':').collect();
+        if f.len() != 6 {
+            return None;
+        }
+        let pos: usize = f[0].parse().ok()?;
+        if f[3] != "0" {
+            return Some(None);
+        }
+        let mut g = GearSet::default();
+        g.index = f[1].parse().ok()?;
+        g.name = String::from_utf8(unhex(f[2])?).ok()?;
+        g.facewear = if f[4] == "-" { None } else { Some(f[4].parse().ok()?) };
+        if f[5] != "." {
+            for x in f[5].split(',') {
+                let q: Vec<&str> = x.split('/').collect();
+                if q.len() != 8 {
+                    return None;
+                }
+                if q[3..].iter().any(|u| *u != "0") {
+                    return Some(None);
+                }
+                let mut slot = GearSlot::default();
+                slot.id = q[1].parse().ok()?;
+                slot.glamour_id = if q[2] == "-" { None } else { Some(q[2].parse().ok()?) };
+                g.slots.insert(slot_variant(q[0].parse().ok()?)?, slot);
+            }
+        }
+        *v.get_mut(pos)? = Some(g);
+    }
+    Some(Some(v))
+}
+
+fn run_gear(file: &[u8], cf: &[&str]) -> String {
+    let Some(g) = GearSets::from_existing(file) else { return "none".into() };
+    let f = dump_gear(&g);
+    let w = diff_or_same(file, g.write_to_buffer());
+    let d = match build_sets(cf[4]) {
+        None => "bad-case".to_string(),
+        Some(None) => "skip".to_string(),
+        Some(Some(sets)) => {
+            let mut b = g.clone();
+            b.current_gearset = cf[1].parse().unwrap_or(0);
+            b.gearsets = sets;
+            diff_or_same(file, b.write_to_buffer())
+        }
+    };
+    format!("F[{}]|W[{}]|D[{}]", f, w, d)
+}
+
+pub fn run(case: &str, input: &str) -> String {
+    let f: Vec<&str> = input.split(' ').collect();
+    let cf: Vec<String> = case.split(' ').map(|s| s.to_string()).collect();
+    match f.as_slice() {
+        ["char", file] if cf.len() == 5 => {
+            let Some(file) = unhex(file) else { return "bad-case".into() };
+            guarded(move || {
+                let cf: Vec<&str> = cf.iter().map(|s| s.as_str()).collect();
+                run_char(&file, &cf)
+            })
+        }
+        ["charbad", file] => {
+            let Some(file) = unhex(file) else { return "bad-case".into() };
+            guarded(move || match CharacterData::from_existing(&file) {
+                None => "none".into(),
+                Some(d) => format!("F[{}]", dump_char(&d)),
+            })
+        }
+        ["gear", file] if cf.len() == 5 => {
+            let Some(file) = unhex(file) else { return "bad-case".into() };
+            guarded(move || {
+                let cf: Vec<&str> = cf.iter().map(|s| s.as_str()).collect();
+                run_gear(&file, &cf)
+            })
+        }
+        _ => "bad-case".into(),
+    }
+}
+
+// ------------------------------------------------------------------------------------------
+// dump: T2 tables from the compiled code
+// ------------------------------------------------------------------------------------------
+
+/// The compiled enum reader / writer observed through the public API: a minimal preset file
+/// (magic, valid codes, zeros; the checksum is not verified on read) with byte `off` set to `v`
+/// is parsed and written back; rows are (accepted byte, byte written back at the same offset).
+fn enum_table(name: &str, doc: &str, off: usize, out: &mut dyn Write) {
+    let mut rows = Vec::new();
+    for v in 0..=255u8 {
+        let mut file = vec![0u8; 212];
+        file[0..4].copy_from_slice(&[0x14, 0xFF, 0x13, 0x20]);
+        file[0x10] = 1; // race
+        file[0x11] = 0; // gender
+        file[0x14] = 1; // tribe
+        file[off] = v;
+        if let Some(d) = CharacterData::from_existing(&file) {
+            match d.write_to_buffer() {
+                Some(w) if w.len() == 212 => rows.push(format!("({}, {})", v, w[off])),
+                _ => rows.push(format!("({}, 255)", v)),
+            }
+        }
+    }
+    writeln!(out, "/-- {} -/", doc).unwrap();
+    writeln!(out, "def {} : List (UInt8 × UInt8) := [{}]", name, rows.join(", ")).unwrap();
+}
+
+pub fn dump(out: &mut dyn Write) {
+    let which = std::env::args().nth(3).unwrap_or_default();
+    if which == "slots" {
+        writeln!(out, "-- GENERATED by `harness C09 dump` from the compiled `GearSlotType` conversions of src/gearsets.rs — do not edit (rewritten by ./check on every run)").unwrap();
+        writeln!(out, "namespace Physis.Generated").unwrap();
+        writeln!(out, "/-- for i in 0..16: (i, Debug name of `GearSlotType::try_from(i)` or \"-\", that variant `as usize` or 255) -/").unwrap();
+        let rows: Vec<String> = (0..16usize)
+            .map(|i| match GearSlotType::try_from(i) {
+                Ok(t) => format!("({}, \"{:?}\", {})", i, t, t.clone() as usize),
+                Err(_) => format!("({}, \"-\", 255)", i),
+            })
+            .collect();
+        writeln!(out, "def gearSlotTable : List (Nat × String × Nat) := [{}]", rows.join(", ")).unwrap();
+        writeln!(out, "end Physis.Generated").unwrap();
+        return;
+    }
+    writeln!(out, "-- GENERATED by `harness C09 dump` from the compiled binrw readers/writers of src/race.rs — do not edit (rewritten by ./check on every run)").unwrap();
+    writeln!(out, "namespace Physis.Generated").unwrap();
+    enum_table("raceTable", "(byte accepted by `Race::read`, byte `Race::write` emits for the value read)", 0x10, out);
+    enum_table("genderTable", "same for `Gender`", 0x11, out);
+    enum_table("tribeTable", "same for `Tribe`", 0x14, out);
+    writeln!(out, "end Physis.Generated").unwrap();
+}
